@@ -147,7 +147,7 @@ func TestC05Retention(t *testing.T) {
 		c.Add(cfg.String())
 		w := lstore.NewWorld(t, cfg, nil, rapid.Uint64().Draw(t, "hashInit"))
 		defer w.Close()
-		h := lstore.NewHist(t, w, c, lstore.HistOpts{})
+		h := lstore.NewHist(t, w, c, lstore.HistOpts{Holds: true}) // slow Gets = concurrent touches
 		tr := &tracker{t: t, w: w, c: c, known: known}
 		var literal []*obligation
 
@@ -261,8 +261,21 @@ func TestC05Retention(t *testing.T) {
 		delete(acts, "findmissing")
 		acts["touchGet"] = touchGet
 		acts["touchFind"] = touchFind
+		slowGets := 0
 		acts[""] = func(t *rapid.T) {
 			w.CheckMonitors()
+			// A slow (held-open) Get that has just completed successfully is
+			// a touch whose verdict point is its completion.
+			for _, hd := range w.Holds {
+				if hd.OK && !hd.Seen {
+					hd.Seen = true
+					slowGets++
+					// Verdict point of a slow Get: when the call looked the object
+					// up (the consumer finishing late does not extend the promise).
+					ob := &obligation{o: hd.Obj, inst: hd.Instance, verdict: hd.AllocsAtOpen, complete: hd.AllocsAtOpen, how: "a slow Get that completed successfully"}
+					tr.obl = append(tr.obl, ob)
+				}
+			}
 			tr.check()
 			literal = tr.literalCheck(literal)
 		}
@@ -274,6 +287,7 @@ func TestC05Retention(t *testing.T) {
 		c.ClassIf(tr.refreshingTouches > 0, "touch_refreshed_an_object")
 		c.ClassIf(tr.checkedAfterAllocs > 0, "obligation_checked_after_allocations")
 		c.ClassIf(tr.literalGaps > 0, "known_finding_shape_excluded")
+		c.ClassIf(slowGets > 0, "slow_get_completed_concurrently_with_other_touches")
 		c.ClassIf(cfg.Old == 0, "old_blocks_zero")
 		c.ClassIf(cfg.Mutable, "ac_policy")
 		c.ClassIf(cfg.Hierarchical, "hierarchical")
